@@ -19,6 +19,7 @@
 From Coq Require Import ZArith QArith List Bool.
 From TM Require Import Sched.Vec Sched.Types Sched.Tree Sched.Cycle Sched.Events Sched.MapsP Sched.Steps Sched.InvAcct Sched.InvIdent
                        Sched.TurnP Sched.CycleP Sched.KeepP Sched.Reach.
+From TM Require Import Base.ShapeCanon.
 Import ListNotations.
 Open Scope Z_scope.
 
@@ -94,3 +95,10 @@ Example C05_nonvacuous_wf : wf_ops_id (init_cell 3 2000 1) ex_ops.
 Proof. cbn [wf_ops_id ex_ops wf_op_id]. repeat split; try (intros; reflexivity); try discriminate. Qed.
 Example C05_nonvacuous_wf_all : wf_ops_all (init_cell 3 2000 1) ex_ops.
 Proof. apply wf_ops_allb_sound. vm_compute. reflexivity. Qed.
+
+(** the functions of treadmill/scheduler/__init__.py these theorems were proved about still have the statement
+    skeleton the model was written from (re-extracted from the Python AST on every run, harness/tables_shape.py;
+    kept last so that a difference does not stop the theorems above from being checked) *)
+Theorem C05_source_shape : shapes_ok_C05 = true.
+Proof. vm_compute. reflexivity. Qed.
+Print Assumptions C05_source_shape.
